@@ -477,7 +477,10 @@ class BleAccessory:
             items = tlv8.decode(value, strict=False)
         self.pairing_requests = getattr(self, "pairing_requests", [])
         self.pairing_requests.append(items)
-        if c.uuid == CH_PAIR_VERIFY:
+        echo = getattr(self, "pairing_echo", None)
+        if echo is not None:  # C15: arbitrary item lists through the pairing channel
+            reply = echo(items, value)
+        elif c.uuid == CH_PAIR_VERIFY:
             d = tlv8.to_dict(items)
             if d.get(hap.T_STATE) == b"\x01":
                 self.verify = hap.VerifyResponder(self.ident, self.controllers, self.eph("verify-eph", 32), mut=self.verify_mut() if self.verify_mut else None,
@@ -500,12 +503,21 @@ class BleAccessory:
         else:
             reply = self._pairings(items, secure)
         self.last_pairing_reply = reply
-        rb = tlv8.encode(reply)
+        rb = bytes(reply) if isinstance(reply, (bytes, bytearray)) else tlv8.encode(reply)
         if self.tlv_frag_size and len(rb) > self.tlv_frag_size:
             pieces = [rb[i : i + self.tlv_frag_size] for i in range(0, len(rb), self.tlv_frag_size)]
+            ff = getattr(self, "tlv_frag_fault", None)  # in-flight faults on the TLV-level fragments
+            if ff and ff["kind"] == "drop" and len(pieces) > 1:
+                del pieces[ff["idx"] % len(pieces)]
+            elif ff and ff["kind"] == "dup":
+                k = ff["idx"] % len(pieces)
+                pieces.insert(k, pieces[k])
+            elif ff and ff["kind"] == "endless":
+                pieces = pieces + [b"\x00"] * 64
             first = pieces.pop(0)
             self.pending_tlv_frags = pieces
-            rb = tlv8.encode([(hap.T_FRAGDATA, first)])
+            self.tlv_pieces_sent = [first] + list(pieces)
+            rb = tlv8.encode([(hap.T_FRAGDATA, first)]) if pieces else tlv8.encode([(hap.T_FRAGLAST, first)])
         return self._respond(c, tid, ST_OK, tlv8.encode([(1, rb)]), secure)
 
     def _start_session(self) -> None:
